@@ -160,6 +160,7 @@ struct Dir {
   double nf[NSTEP][MAXN];      // noise floor of the central quotient: 64 ulp of the values / step
   double mid[NSTEP][MAXN];     // |f0 - (f+ + f-)/2|: shrinks ~256x per family for a smooth function
   double mag[NSTEP][MAXN];     // max(|f0|,|f+|,|f-|)
+  bool flat[NSTEP][MAXN];      // f+ == f- bit for bit: the step was lost inside the function (or it is constant)
   bool centre_ok = false;
 };
 typedef std::function<bool(const double*, double*)> VecFn;   // false = binding reported an error
@@ -198,6 +199,7 @@ static void directional(const VecFn& F, int m, const double* x, int n, int i, Di
       D.bw[s][c] = (um && u0) ? (f0[c] - fm[c]) / (xi - xm) : NaN;
       D.nf[s][c] = (up && um) ? 64 * EPS * std::fmax(std::fabs(fp[c]), std::fabs(fm[c])) / (xp - xm) : NaN;
       D.mid[s][c] = (up && um && u0) ? std::fabs(f0[c] - 0.5 * (fp[c] + fm[c])) : NaN;
+      D.flat[s][c] = up && um && fp[c] == fm[c];
       D.mag[s][c] = (up && um && u0) ? std::fmax(std::fabs(f0[c]), std::fmax(std::fabs(fp[c]), std::fabs(fm[c]))) : NaN;
     }
   }
@@ -209,10 +211,13 @@ static const double TOL_REL = 1e-4, TOL_ABS = 1e-7, WIDE_REL = 1e-3, WIDE_ABS = 
 // Analytic value a against the estimates of component c.  `allow` = 1e-9 x the largest finite output of
 // the same call (conditioning allowance: an output is not expected to be more accurate than that).
 //  OK        a agrees (1e-4 rel + 1e-7 abs + allow) with any finite estimate;
-//  MISMATCH  at least one family is stable (its two steps agree, both above their noise floor) and
-//            smooth (midpoint defect shrinks >= 64x between the two steps), all stable families agree
-//            with each other, a is outside 1e-3 rel + 1e-6 abs + allow of every estimate of the stable
-//            families and matches no one-sided quotient;
+//  MISMATCH  a large-step family (2^-10 absolute or relative) is stable (its two steps agree, both
+//            above their noise floor) and smooth (midpoint defect shrinks >= 64x between the two
+//            steps), all stable families agree with each other, a is outside 1e-3 rel + 1e-6 abs +
+//            allow of every estimate of the stable families and matches no one-sided quotient.  The
+//            small-step families can only veto: inside a function x + h is often absorbed by a much
+//            larger term, so a family whose differences are exactly 0 is ignored as soon as another
+//            stable family sees a change;
 //  everything else is not judged.
 static Verdict verdict(double a, const Dir& D, int c, double allow, std::string* est) {
   if (est) {
@@ -221,10 +226,10 @@ static Verdict verdict(double a, const Dir& D, int c, double allow, std::string*
   }
   for (int s = 0; s < D.ns; ++s)
     if (std::isfinite(D.c[s][c]) && close_to(a, D.c[s][c], TOL_REL, TOL_ABS + allow)) return V_OK;
-  bool stable[NFAM], smooth[NFAM]; double rep[NFAM];
-  int nstable = 0, nsmooth = 0;
+  bool stable[NFAM], smooth[NFAM], flat[NFAM]; double rep[NFAM];
+  int nstable = 0, nsmooth = 0, nonflat = 0;
   for (int f = 0; f < NFAM; ++f) {
-    stable[f] = smooth[f] = false; rep[f] = 0;
+    stable[f] = smooth[f] = flat[f] = false; rep[f] = 0;
     int s1 = -1, s2 = -1;
     for (int s = 0; s < D.ns; ++s) if (D.fam[s] == f) { if (s1 < 0) s1 = s; else s2 = s; }
     if (s2 < 0) continue;
@@ -233,9 +238,16 @@ static Verdict verdict(double a, const Dir& D, int c, double allow, std::string*
     if (!(D.nf[s1][c] <= TOL_REL * std::fabs(e1) + TOL_ABS + allow)) continue;
     if (!(D.nf[s2][c] <= TOL_REL * std::fabs(e2) + TOL_ABS + allow)) continue;
     if (!close_to(e1, e2, TOL_REL, TOL_ABS + allow)) continue;
-    stable[f] = true; rep[f] = e2; ++nstable;
+    stable[f] = true; rep[f] = e2;
+    flat[f] = D.flat[s1][c] && D.flat[s2][c];
+    if (!flat[f]) ++nonflat;
     if (std::isfinite(D.mid[s1][c]) && std::isfinite(D.mid[s2][c]) &&
-        D.mid[s2][c] <= D.mid[s1][c] / 64 + 1e-8 * D.mag[s2][c] + 1e-300) { smooth[f] = true; ++nsmooth; }
+        D.mid[s2][c] <= D.mid[s1][c] / 64 + 1e-8 * D.mag[s2][c] + 1e-300) smooth[f] = true;
+  }
+  for (int f = 0; f < NFAM; ++f) {
+    if (stable[f] && flat[f] && nonflat) stable[f] = smooth[f] = false;     // step absorbed: no evidence
+    if (stable[f]) ++nstable;
+    if (stable[f] && smooth[f] && (f == 0 || f == 3)) ++nsmooth;             // large-step families only
   }
   if (!nstable) return V_UNSTABLE;
   for (int f = 0; f < NFAM; ++f) for (int g = f + 1; g < NFAM; ++g)
@@ -571,6 +583,7 @@ static void explore_function(size_t k, int n, bool thorough, bool single) {
         for (int i = 0; i < n; ++i) SHM->x[i] = keep[i];
         run_tuple(f, n, ip, keep, SHM->st); SHM->st.tuples = 1;
       } else child_run(k, n, thorough, start);
+      std::fflush(stdout);
       _exit(0);
     }
     int status = 0;
@@ -631,6 +644,9 @@ static bool selftest(std::string* why) {
     {[](double x) { return std::sin(1e6 * x); }, 10.0, 123.0, V_UNSTABLE, "oscillation too fast for every step"},
     {[](double x) { return x == 0 ? 1e8 : std::fabs(x) < 1e-7 ? 1e8 * std::exp(-x * x * 1e16) : 0.0; }, 0.0, -1e16, V_UNSTABLE, "spike narrower than the large steps"},
     {[](double x) { return 1e16 + x; }, 2.5, 7.0, V_UNSTABLE, "difference below the noise floor"},
+    {[](double x) { return std::exp((1e8 + x) - 1e8) + 1e-3 * std::sin(3e3 * x); }, -0.001, 1.0 + 3 * std::cos(3.0), V_UNSTABLE,
+     "small steps absorbed by a large internal term must not refute"},
+    {[](double x) { return 0.0 * x; }, -2.5, 0.3, V_MISMATCH, "identically zero function, non-zero derivative returned"},
     {[](double x) { return std::exp(-x * x); }, 2.5, -5 * std::exp(-6.25), V_OK, "gaussian"},
   };
   for (auto& t : ts) {
@@ -672,7 +688,7 @@ int main(int argc, char** argv) {
   if (S.i == 0) {
     std::string why;
     if (!selftest(&why)) R.broken(why);
-    R.stat("selftest_cases", 16);
+    R.stat("selftest_cases", 18);
   }
   std::set<std::string> names;
   const char* only = vx::arg_value(argc, argv, "--only");      // diagnostics: restrict to one function
@@ -684,7 +700,12 @@ int main(int argc, char** argv) {
       explore_function(k, n, thorough, false);
     }
   }
-  if (S.i == 0) R.stat("functions_registered", (long long)FNS.size());
+  if (S.i == 0) {
+    R.stat("functions_registered", (long long)FNS.size());
+    R.sample("{\"fn\":\"gsl_sf_beta\",\"x\":[\"-2.5\",\"-2.5\"],\"modes\":[\"value\",\"derivs\",\"hes\"],\"dig\":[\"all active\",\"only-x0\",\"only-x1\"]}");
+    R.sample("{\"fn\":\"gsl_sf_bessel_Jn\",\"x\":[\"0.5\",\"2\"],\"note\":\"non-integer at an integer-only position\"}");
+    R.sample("{\"fn\":\"gsl_sf_coupling_9j\",\"x\":[\"2\",\"1\",\"1\",\"0\",\"5\",\"-1\",\"2\",\"NaN\",\"1000\"],\"note\":\"row of the pairwise array\"}");
+  }
   R.done();
   return 0;
 }
